@@ -389,6 +389,14 @@ def run(tier, seed, replay):
             # several simultaneous defects: every injected grammar defect has its own diagnostic in this one run (none masks another)
             norm = [re.sub(r'"[^"]*"', '"_"', e) for e in errs]
             labels = [w for w in sp.get("what") or [] if w.startswith("grammar:") and w != "grammar:must-no-getter"]
+            # two injectors that edit attributes of a service may hit the same service and undo one another (a bad constructor removed by
+            # "missing constructor"): such labels are decided only when they stand alone in their configuration
+            SVC = {"grammar:" + x for x in ("getter", "ctor", "type", "value", "ctor+value", "missing-ctor", "args-noctor", "must-prefix", "incontext", "reserved", "nonprim-arg", "tag", "dup-tag", "field", "call")}
+            if sum(1 for w in sp.get("what") or [] if w in SVC or w == "grammar:must-no-getter") >= 2:
+                dist["multi_labels_skipped"] = dist.get("multi_labels_skipped", 0) + len([l_ for l_ in labels if l_ in SVC])
+                labels = [l_ for l_ in labels if l_ not in SVC]
+            if "pattern:param:np" in (sp.get("what") or []):
+                labels = [l_ for l_ in labels if l_ != "grammar:nonprim-param"]      # (the pattern injector replaced that very parameter's value)
             for lab in labels:
                 evals += 1
                 rx = MULTI_DIAG.get(lab)
@@ -398,7 +406,8 @@ def run(tier, seed, replay):
                 elif not any(re.search(rx, e) for e in norm):
                     out.violation("not-all-reported:" + lab, "the injected defect %s has no diagnostic of its own among %d reported (labels of this configuration: %s)" % (lab, len(errs), sp.get("what")),
                                   common.slim(sp, ob))
-            if labels and (ob.get("exit") == 0 or any(not e.startswith("compiler.StepValidateInput: ") for e in errs)):
+            if labels and not any(w.startswith("grammar:") and w not in labels and w != "grammar:must-no-getter" for w in sp.get("what") or []) and \
+                    (ob.get("exit") == 0 or any(not e.startswith("compiler.StepValidateInput: ") for e in errs)):
                 out.violation("multi-defect-verdict", "a configuration with grammar defects %s: exit %s, diagnostics from %s" % (labels, ob.get("exit"), sorted({e.split(":")[0] for e in errs})), common.slim(sp, ob))
             continue
         errs = ob.get("errors") or []
